@@ -3,6 +3,7 @@ package mon
 import (
 	"bytes"
 	"fmt"
+	"reflect"
 
 	"verifharness/core"
 	"verifharness/gen"
@@ -115,6 +116,29 @@ func checkC03(c *core.Ctx, pc pcase) {
 			}
 		}
 		c.Bucket("append-ok/" + p.Kind)
+	}
+
+	// (2b) what a parser consumes is a function of its input: after the holder of ANOTHER parsed value
+	// of this kind has edited that value through its public surface, the same input is still
+	// accepted and the same number of bytes is consumed
+	if !trivialKind(p.Kind) && r.Chance(1, 4) {
+		// (the other value is a second parse of the same bytes: same kind, same shape)
+		if o2, pk, _, _ := callParser(c, p, append([]byte{}, in...)); !pk && o2.Accepted && o2.Val != nil && reflect.ValueOf(o2.Val).Kind() == reflect.Ptr {
+			edits := 0
+			func() {
+				defer func() { _ = recover() }()
+				edits = lib.ScribbleExported(o2.Val) + lib.ScribbleViaAccessors(o2.Val)
+			}()
+			if edits > 0 {
+				o3, pk3, _, _ := callParser(c, p, in)
+				c.Eval(1)
+				if !pk3 && (!o3.Accepted || (p.HasRem && len(o3.Rem) != len(out.Rem))) {
+					c.Violate(p.Name, "consumption-changed-after-another-value-was-edited", sh, in, fmt.Sprintf("accepted=%v, remainder %d bytes (before: %d) once %d bytes of another parsed value had been changed through its public surface", o3.Accepted, len(o3.Rem), len(out.Rem), edits))
+				} else {
+					c.Bucket("reparse-after-edit-ok/" + p.Kind)
+				}
+			}
+		}
 	}
 
 	// (3) no proper prefix of the consumed encoding parses
